@@ -119,12 +119,12 @@ func c13Merge(c *Ctx, gd *Module) {
 	r.Check("C13.merge-one-per-object", "handleMerge/each object is decoded into a fresh report value", gd.Pos(decode.Pos()), okFresh,
 		"the Decode target must be allocated inside the loop: encoding/json decodes INTO existing maps, so a reused value keeps keys of earlier reports")
 	if target != nil {
-		ed := describe(argsOf(encode)[1])
+		ed := describeArg(encode, 1)
 		r.Check("C13.merge-one-per-object", "handleMerge/encodes the report decoded from this object", gd.Pos(encode.Pos()), ed == "*alloc:"+allocName(target) || ed == "alloc:"+allocName(target), "got "+ed)
 		r.Check("C13.merge-one-per-object", "handleMerge/encode only after a successful decode", gd.Pos(encode.Pos()), hasFact(factsAt(encode), errNilOf(decode)), "Decode error must not be ignored")
 	}
 	// the decoder reads the object named by Next()
-	dd := describe(argsOf(decode)[0])
+	dd := describeArg(decode, 0)
 	r.Check("C13.merge-one-per-object", "handleMerge/decodes the listed object", gd.Pos(decode.Pos()), strings.Contains(dd, ".Object(") && strings.Contains(dd, "ObjectIterator).Next(") && strings.Contains(dd, ".Upload"), "got "+shortDesc(dd))
 	// listing prefix validated, merge target name
 	it := describe(next.Call.Value)
@@ -153,7 +153,7 @@ func c13Merge(c *Ctx, gd *Module) {
 		})
 	}
 	r.Check("C13.merge-one-per-object", "handleMerge/lists the upload bucket by a validated date", gd.Pos(next.Pos()), okIt && okDate, "s.Upload.Objects(ctx, date) with time.Parse(DateOnly, date) == nil; iterator "+shortDesc(it))
-	ew := describe(argsOf(encode)[0])
+	ew := describeArg(encode, 0)
 	r.Check("C13.merge-one-per-object", "handleMerge/writes <date>.json in the merge bucket", gd.Pos(encode.Pos()), strings.Contains(ew, ".Merge") && strings.Contains(ew, `+ ".json")`) && dateV != nil && strings.Contains(ew, describe(dateV)), "got "+shortDesc(ew))
 }
 
@@ -288,7 +288,7 @@ func c13Chart(c *Ctx, gd *Module) {
 	}
 	r.Check("C13.every-report-counted", "handleChart/visits every day of [start, end]", gd.Pos(read.Pos()), okLoop, "for date := start; !date.After(end); date = date.AddDate(0, 0, 1)")
 	// the file read is <date>.json
-	fd := describe(argsOf(read)[1])
+	fd := describeArg(read, 1)
 	r.Check("C13.every-report-counted", "handleChart/reads <date>.json", gd.Pos(read.Pos()), strings.HasPrefix(fd, "((time.Time).Format(phi:") && strings.HasSuffix(fd, `"2006-01-02") + ".json")`), "got "+fd)
 	// errors returned unchanged
 	for _, b := range h.Blocks {
@@ -495,7 +495,7 @@ func c13Determinism(c *Ctx, gd *Module) {
 							// the slice appended to must be sorted before it escapes
 							cl := x.(*ssa.Call)
 							if !appendIsSortedLater(fn, cl) {
-								bad = "append to a slice that is not sorted afterwards: " + describe(argsOf(cl)[0])
+								bad = "append to a slice that is not sorted afterwards: " + describeArg(cl, 0)
 							}
 						case cn == "builtin:len" || cn == "builtin:delete" || cn == "builtin:cap":
 						case strings.HasPrefix(cn, "godev/cmd/worker.") || strings.HasPrefix(cn, "(godev/cmd/worker."):
@@ -520,7 +520,7 @@ func c13Determinism(c *Ctx, gd *Module) {
 	pt := gd.Func("cmd/worker", "data.partition")
 	okSort := false
 	for _, cs := range callsIn(pt, "sort.Slice", "sort.SliceStable", "slices.SortFunc") {
-		okSort = strings.Contains(describe(argsOf(cs)[0]), ".Data")
+		okSort = strings.Contains(describeArg(cs, 0), ".Data")
 	}
 	r.Check("C13.determinism", "partition/chart data is sorted before it is returned", gd.Pos(pt.Pos()), okSort, "sort.Slice(chart.Data, …)")
 	// every comparator that can reach partition's sort is a total order on distinct strings:
@@ -639,7 +639,7 @@ func appendIsSortedLater(fn *ssa.Function, app *ssa.Call) bool {
 	}
 	follow(app, 0)
 	for _, cs := range callsIn(fn, "sort.Slice", "sort.SliceStable", "sort.Strings", "slices.SortFunc", "slices.Sort", "sort.Sort") {
-		d := describe(argsOf(cs)[0])
+		d := describeArg(cs, 0)
 		for t := range targets {
 			if t != "" && strings.Contains(d, t) {
 				return true
